@@ -40,3 +40,4 @@ CFG = dict(
 
 CFG["rule"] += " Also: application metadata under grpc-* names the protocol does not reserve (grpc-tenant, grpc-retry-pushback-ms, grpc-previous-rpc-attempts) in request, header and trailer position; front 'grpcl' = a second mux over the same backend with MaxReceiveMessageSize 96 (send limit default), replies of 90 / 97 / 200 / 5000 bytes on all four shapes."
 CFG["rule"] += ' Request / header / trailer metadata also under names that only begin like hop-by-hop headers and the bare tails of the grpc-* names.'
+CFG["rule"] += ' Front web: the proxied call made as a gRPC-web client makes it (application/grpc-web+proto over HTTP/1.1; unary and server streaming, every status, 0..2 replies before it): messages, status code, message and details from the trailer frame or -- a reply without any message -- from the response header (header and trailer metadata are then not told apart: *).'
